@@ -59,8 +59,8 @@ def parseKind : String → Kind
   | "poison-private" => .poisonPrivate
   | "storage-public" => .storagePublic
   | "storage-private" => .storagePrivate
-  | "symmetric" => .symmetric
-  | "search" => .search
+  | "symmetric-key" => .symmetric
+  | "hmac-key" => .search
   | _ => .other
 
 def parseMode : String → Mode
